@@ -30,6 +30,9 @@ func init() {
 			// the dialer's context watcher may replace the handshake's I/O error only by the
 			// context's error, never by nil
 			c20Watcher(c)
+			// a response cut inside the head reaches the handshake as the connection's own error,
+			// also through the debug dialer's sniffing reader
+			c20PrefetchKeepsSource(c, "C16")
 		},
 	})
 }
